@@ -70,6 +70,11 @@ def Val.asString : Val → String
   | .crash _ => ""
   | .emptyList t => t
 
+/-- `DataRow.getStatsKey`: the part of a Stats group key that stands for one column - the text of the value with the separator of
+    the key (which also joins the elements of a list) replaced by a comma, so that a key has one part per column -/
+def Val.keyString (v : Val) : String :=
+  String.ofList (v.asString.toList.map (fun c => if c == Char.ofNat 0 then ',' else c))
+
 /-! ### leaf matching -/
 
 def matchEmptyFilter : Op → Bool
